@@ -1,5 +1,6 @@
 import LibInj.Proofs.QString
 import LibInj.Properties.C12
+import LibInj.Proofs.NumSci
 /-! # C06 — the SQLi pipeline conforms to the reference algorithm
 
 The reference is `LibInj/Spec` (declarative meanings: first real closing quote as a one-pass
@@ -16,7 +17,9 @@ end-of-line comments, bracket words, `/* … */` comments with their class (`sla
 at or after the opener; class `X` iff a nested `/*` or `/*!`; `slash_operator_refines`), the verdict cascade
 (`cascade_refines`), the word lexer with its keyword split (`word_refines`, `splitLoop_first`: the token is the keyword
 before the *first* `.` / back-tick that follows a non-bareword keyword, else the whole run classified by the table).
-Not yet a theorem: the number grammar (`conformance_statement`). -/
+The number lexer accepts the literal grammar (`number_literal_refines`: integers, decimals, exponent forms → one token
+of class `1` spanning the literal); its prefixed / suffixed / malformed-exponent branches are characterised by the staged
+model only (`conformance_statement`). -/
 namespace LibInj.Properties.C06
 open LibInj LibInj.Sqli LibInj.Spec
 
@@ -268,5 +271,21 @@ theorem word_refines (rest : Bytes) (L : Nat) (v : Bytes) (hLd : spn notWordAcce
 /-- non-vacuity: in `select.x` the split applies at offset 6 (`SELECT` is a keyword of class `E`), and at no earlier offset -/
 example : SplitAt (bs "select.x") 6 ∧ searchKeyword ((bs "select.x").take 6) = 69 := by
   refine ⟨⟨Or.inl (by decide +kernel), by decide +kernel, by decide +kernel⟩, by decide +kernel⟩
+
+/-- **the number lexer accepts the literal grammar**: an unsigned integer, a decimal `digits.digits` / `digits.`, and an integer
+with an exponent `digits e [+-] digits` (either case of `e`), followed by end of input, a blank or `,` `:` `?` (a blank or
+end of input for the decimal form), is lexed as exactly one token of class `1` whose text is the literal (clipped to 31
+bytes) and scanning resumes right after it. (The prefixed forms `0x…`/`0b…`, the Oracle suffixes and the malformed-exponent
+case that yields a bareword are characterised by the staged model only.) -/
+theorem number_literal_refines (w r : Bytes) :
+    (GoodNum w → SepN r → parseNumber (w ++ r) = .ok { tok := goodTok 49 w, next := w.length }) ∧
+    (GoodDec w → Sep r → parseNumber (w ++ r) = .ok { tok := goodTok 49 w, next := w.length }) ∧
+    (GoodSci w → SepN r → parseNumber (w ++ r) = .ok { tok := goodTok 49 w, next := w.length }) :=
+  ⟨fun hw hr => parseNumber_good w r hw hr, fun hw hr => parseNumber_dec w r hw hr, fun hw hr => parseNumber_sci w r hw hr⟩
+
+/-- non-vacuity: `12e-3` is such a literal, and the kernel evaluates the lexer on `12e-3,` to a number of length 5 -/
+example : GoodSci (bs "12e-3") := ⟨bs "12", bs "3", 101, [45], by decide +kernel, ⟨by decide +kernel, by decide +kernel⟩,
+  ⟨by decide +kernel, by decide +kernel⟩, Or.inr rfl, Or.inr (Or.inr rfl)⟩
+example : (match parseNumber (bs "12e-3,") with | .ok r => r.tok.cat == 49 && r.next == 5 | _ => false) = true := by decide +kernel
 
 end LibInj.Properties.C06
